@@ -690,6 +690,10 @@ func (ex *Exec) runBody(fr *frame, st0 *State, reach0 *Term) []*exit {
 	}
 	var exits []*exit
 	fc := ex.eng.cs.Funcs[funcKey(fn)]
+	if fr.isTop && fr.contract != nil {
+		// the contract being verified (for a `standalone` contract this is not the one call sites use)
+		fc = fr.contract
+	}
 	type latchCheck struct {
 		header *ssa.BasicBlock
 		lc     *LoopContract
